@@ -38,8 +38,17 @@ fn last_panic() -> String {
     LAST_PANIC.with(|p| p.borrow().clone())
 }
 
+/// Every public way of building a `Config` must mean the same configuration (a library user calls
+/// the builder methods in any order): the path is varied as a pure function of the values.
 pub fn to_config(cfg: &Cfg) -> Config {
-    Config { tab_spaces: cfg.tab, max_width: cfg.width, reorder_import_items: cfg.reorder, ..Config::default() }
+    let (w, t) = (cfg.width, cfg.tab);
+    let base = match (w ^ t.rotate_left(3) ^ (w >> 7)) % 4 {
+        0 => Config { tab_spaces: t, max_width: w, ..Config::default() },
+        1 => Config::new().with_width(w).with_tab_spaces(t),
+        2 => Config::new().with_tab_spaces(t).with_width(w),
+        _ => Config::default().with_tab_spaces(t).with_width(w).with_tab_spaces(t),
+    };
+    Config { reorder_import_items: cfg.reorder, ..base }
 }
 
 pub struct Real {
